@@ -164,15 +164,16 @@ MapOK(m) == m \in DOMAIN M /\ M[m].held /\ HolderOK(M[m].h)
 
 WmInsert(m, k, v) ==
   /\ MapOK(m) /\ Held(k) /\ Held(v) /\ Len(P) < MaxP
-  /\ P' = Append([x \in DOMAIN P |-> IF x \in EntryOf(m, k) THEN [P[x] EXCEPT !.held = FALSE] ELSE P[x]],
-                 Row("ent", k, v, m))
+  /\ LET old == EntryOf(m, k) IN
+       P' = Append([x \in DOMAIN P |-> IF x \in old THEN [P[x] EXCEPT !.held = FALSE] ELSE P[x]], Row("ent", k, v, m))
   /\ obs' = [op |-> "wmins", m |-> m, k |-> k, v |-> v]
   /\ UNCHANGED <<nalloc, nodes, H, E, armed, M>>
 
 WmRemove(m, k) ==
   /\ MapOK(m) /\ Held(k)
-  /\ P' = [x \in DOMAIN P |-> IF x \in EntryOf(m, k) THEN [P[x] EXCEPT !.held = FALSE] ELSE P[x]]
-  /\ obs' = [op |-> "wmrem", m |-> m, k |-> k, r |-> IF EntryOf(m, k) # {} THEN 1 ELSE 0]
+  /\ LET old == EntryOf(m, k) IN
+       /\ P' = [x \in DOMAIN P |-> IF x \in old THEN [P[x] EXCEPT !.held = FALSE] ELSE P[x]]
+       /\ obs' = [op |-> "wmrem", m |-> m, k |-> k, r |-> IF old # {} THEN 1 ELSE 0]
   /\ UNCHANGED <<nalloc, nodes, H, E, armed, M>>
 
 WmGet(m, k) ==
